@@ -196,7 +196,30 @@ fn evaluate_source(
     Ok(())
 }
 
+/// Stack reserved for the thread that evaluates programs. The evaluator recurses on the native
+/// stack (tens of KB per nested call for deeply nested function bodies), so with the default
+/// 8 MiB main-thread stack a runaway recursion overflowed the stack long before the call-depth
+/// limit of 1000 could report it. The reservation is virtual memory, committed only when touched.
+const EVAL_STACK_SIZE: usize = 1 << 30;
+
 fn main() -> ! {
+    let worker = std::thread::Builder::new()
+        .name("blots-main".to_string())
+        .stack_size(EVAL_STACK_SIZE)
+        .spawn(|| -> () { run() });
+
+    match worker {
+        // `run` only ever leaves through `process::exit`; reaching the join result means it panicked
+        Ok(handle) => {
+            let _ = handle.join();
+            std::process::exit(101)
+        }
+        // Could not reserve the large stack: fall back to the main thread
+        Err(_) => run(),
+    }
+}
+
+fn run() -> ! {
     // Handle shell completion generation
     if let Some(shell) = &ARGS.completions {
         let mut cmd = cli::Args::command();
